@@ -1,6 +1,7 @@
 package sim
 
 import (
+	"runtime"
 	"bufio"
 	"context"
 	"encoding/json"
@@ -66,6 +67,45 @@ func rawRead(fd int) byte {
 	}
 }
 
+// rawReadTimeout waits up to ms milliseconds for a byte (poll(2) + read(2), both raw).
+func rawReadTimeout(fd int, ms int) (byte, bool) {
+	type pollfd struct {
+		fd      int32
+		events  int16
+		revents int16
+	}
+	for {
+		p := pollfd{fd: int32(fd), events: 1} // POLLIN
+		n, _, e := syscall.Syscall(syscall.SYS_POLL, uintptr(unsafe.Pointer(&p)), 1, uintptr(ms))
+		if e == syscall.EINTR {
+			continue
+		}
+		if e != 0 {
+			panic(fmt.Sprintf("baton poll: errno=%v", e))
+		}
+		if n == 0 {
+			return 0, false
+		}
+		return rawRead(fd), true
+	}
+}
+
+// goid returns the current goroutine's id (the dispatching cache handles have no context to
+// carry the client in).
+func goid() int64 {
+	var buf [64]byte
+	n := runtime.Stack(buf[:], false)
+	// "goroutine 123 ["
+	var id int64
+	for _, ch := range buf[len("goroutine "):n] {
+		if ch < '0' || ch > '9' {
+			break
+		}
+		id = id*10 + int64(ch-'0')
+	}
+	return id
+}
+
 type baton struct {
 	toSched [2]int
 	wake    [][2]int
@@ -112,7 +152,12 @@ type tclient struct {
 	cfg     *Config
 	disk    mast.Persist
 	cache   mast.NodeCache
+	reg     chan int64      // the client goroutine announces its goroutine id here, then waits for start
+	start   chan struct{}
+	ctx     context.Context // carries the client (for the dispatching handles); cancelled for a "gave up" client
 }
+
+type tclientKey struct{}
 
 func (c *tclient) yield() {
 	if c.solo || c.inFlush {
@@ -206,17 +251,35 @@ type dispatchDisk struct{ prefix string }
 
 func (d *dispatchDisk) NodeURLPrefix() string { return d.prefix }
 func (d *dispatchDisk) Load(ctx context.Context, name string) ([]byte, error) {
-	return runningClient.Load().disk.Load(ctx, name)
+	return clientOf(ctx).disk.Load(ctx, name)
 }
 func (d *dispatchDisk) Store(ctx context.Context, name string, b []byte) error {
-	return runningClient.Load().disk.Store(ctx, name, b)
+	return clientOf(ctx).disk.Store(ctx, name, b)
 }
 
 type dispatchCache struct{}
 
-func (dispatchCache) Add(k, v interface{})               { runningClient.Load().cache.Add(k, v) }
-func (dispatchCache) Contains(k interface{}) bool        { return runningClient.Load().cache.Contains(k) }
-func (dispatchCache) Get(k interface{}) (interface{}, bool) { return runningClient.Load().cache.Get(k) }
+func (dispatchCache) Add(k, v interface{})               { clientOf(nil).cache.Add(k, v) }
+func (dispatchCache) Contains(k interface{}) bool        { return clientOf(nil).cache.Contains(k) }
+func (dispatchCache) Get(k interface{}) (interface{}, bool) { return clientOf(nil).cache.Get(k) }
+
+// clientByGoid is written by the main goroutine before the clients are let go (they receive
+// from a channel it closes afterwards) and only read from then on.
+var clientByGoid map[int64]*tclient
+
+// clientOf finds the client a call belongs to: from the context when there is one, else by
+// goroutine, else (setup on the main goroutine) the one the scheduler last named.
+func clientOf(c context.Context) *tclient {
+	if c != nil {
+		if tc, ok := c.Value(tclientKey{}).(*tclient); ok {
+			return tc
+		}
+	}
+	if tc, ok := clientByGoid[goid()]; ok {
+		return tc
+	}
+	return runningClient.Load()
+}
 
 // ---- live binding: one real cache and one locked store, yields around every call ----
 
@@ -228,12 +291,21 @@ type liveDisk struct {
 func (d *liveDisk) NodeURLPrefix() string { return d.inner.NodeURLPrefix() }
 func (d *liveDisk) Load(ctx context.Context, name string) ([]byte, error) {
 	d.c.yield()
+	if err := ctx.Err(); err != nil {
+		// like a network store, the request of a caller that gave up fails with its context's error
+		d.c.yield()
+		return nil, err
+	}
 	b, err := d.inner.Load(ctx, name)
 	d.c.yield()
 	return b, err
 }
 func (d *liveDisk) Store(ctx context.Context, name string, b []byte) error {
 	d.c.yield()
+	if err := ctx.Err(); err != nil {
+		d.c.yield()
+		return err
+	}
 	err := d.inner.Store(ctx, name, b)
 	d.c.yield()
 	return err
@@ -265,6 +337,7 @@ func (lc *liveCache) Get(key interface{}) (interface{}, bool) {
 func (c *tclient) note(i int, s string) { c.trace = append(c.trace, fmt.Sprintf("%d:%s", i, s)) }
 
 func (c *tclient) obs(m *mast.Mast) string {
+	ctx := c.ctx
 	var sb strings.Builder
 	err := m.Iter(ctx, func(k, v interface{}) error {
 		ki, _ := c.kd.Index(k)
@@ -286,6 +359,7 @@ func (c *tclient) exec(i int, op *Op) {
 	if len(c.trees) == 0 {
 		return
 	}
+	ctx := c.ctx
 	t := c.trees[op.A%len(c.trees)]
 	key := func() interface{} { return c.kd.Key(op.Key % c.cfg.U) }
 	switch op.K {
@@ -383,6 +457,10 @@ func (c *tclient) exec(i int, op *Op) {
 
 func (c *tclient) run(wg *sync.WaitGroup) {
 	defer wg.Done()
+	if c.reg != nil {
+		c.reg <- goid()
+		<-c.start
+	}
 	if !c.solo {
 		rawRead(c.bt.wake[c.id][0]) // wait for the first turn
 	}
@@ -420,6 +498,9 @@ func GenThreadScenario(seed uint64, tier string) *Scenario {
 	sc.Extra["setup_n"] = g.Range(c.U/3, c.U)
 	sc.Extra["setup_mods"] = g.Intn(6)
 	sc.Extra["from_clone"] = g.Intn(4) // 0: clients load roots; 1: each client clones its own loaded tree; 2: mixed; 3: all clients get clones of ONE common parent tree
+	if strings.HasPrefix(c.Cache, "live-tiny") && g.Intn(3) == 0 {
+		sc.Extra["cancelled"] = 1 + g.Intn(sc.Extra["clients"])
+	}
 	n := g.Range(6, 40)
 	ws := []int{30, 14, 6, 4, 3, 8, 3, 2, 4, 2}
 	kinds := []string{"ins", "del", "get", "iter", "seek", "persist", "clone", "diff", "cur", "memstore"}
@@ -491,6 +572,8 @@ func (r *recordingCache) Contains(k interface{}) bool   { _, ok := r.m[k.(string
 func (r *recordingCache) Get(k interface{}) (interface{}, bool) { v, ok := r.m[k.(string)]; return v, ok }
 
 type threadRun struct {
+	blockedEvents int    // times a running client was found waiting for a parked peer
+	stuck         string // every live client waits for another one for good
 	traces  [][]string
 	fpViol  string
 	steps   int
@@ -554,6 +637,14 @@ func runThreads(sc *Scenario, ch *Chooser, solo int, logh *hasher) (*threadRun, 
 	clients := make([]*tclient, n)
 	for i := 0; i < n; i++ {
 		c := &tclient{id: i, bt: bt, kd: tb.kd, vd: tb.vd, cfg: cfg, solo: solo >= 0}
+		c.ctx = context.WithValue(ctx, tclientKey{}, c)
+		if sc.Extra["cancelled"] == i+1 {
+			// this caller has given up: every request it makes of the store fails with its
+			// context's error; nobody else's may
+			cctx, cancel := context.WithCancel(c.ctx)
+			cancel()
+			c.ctx = cctx
+		}
 		if liveC != nil {
 			c.disk = &liveDisk{c: c, inner: tb.disk}
 			c.cache = &liveCache{c: c, inner: liveC}
@@ -611,36 +702,92 @@ func runThreads(sc *Scenario, ch *Chooser, solo int, logh *hasher) (*threadRun, 
 	var wg sync.WaitGroup
 	if solo >= 0 {
 		runningClient.Store(clients[solo])
+		clientByGoid = nil
 		wg.Add(1)
 		go clients[solo].run(&wg)
 		wg.Wait()
 		tr.traces[solo] = clients[solo].trace
 		return tr, nil
 	}
-	for _, c := range clients {
-		wg.Add(1)
-		go c.run(&wg)
+	{
+		byGoid := map[int64]*tclient{}
+		start := make(chan struct{})
+		for _, c := range clients {
+			c.reg = make(chan int64)
+			c.start = start
+			wg.Add(1)
+			go c.run(&wg)
+			byGoid[<-c.reg] = c
+		}
+		clientByGoid = byGoid
+		close(start)
 	}
-	// the scheduler: one client runs at a time, chosen by the chooser
-	alive := make([]int, n)
-	for i := range alive {
-		alive[i] = i
+	// the scheduler: one client runs at a time, chosen by the chooser. A client that neither
+	// yields nor finishes within blockMs of real time is waiting for a peer that the scheduler
+	// holds parked (legitimate: a lock or a shared in-flight request): it is set aside as
+	// blocked and another parked client is chosen, so the peer can make the progress it waits
+	// for. When every live client is blocked and none is parked, nothing the scheduler does can
+	// help: the clients wait for each other for good.
+	const blockMs = 1000
+	const deadMs = 60000
+	parkedSet := map[int]bool{}
+	for i := 0; i < n; i++ {
+		parkedSet[i] = true
 	}
-	for len(alive) > 0 {
-		pick := alive[ch.Intn(len(alive))]
-		logh.Int(pick)
-		tr.steps++
-		runningClient.Store(clients[pick])
-		rawWrite(bt.wake[pick][1], 1)
-		b := rawRead(bt.toSched[0])
-		if b&0x80 != 0 {
+	running := -1
+	blocked := map[int]bool{}
+	idleMs := 0
+	for len(parkedSet)+len(blocked) > 0 || running >= 0 {
+		if running < 0 && len(parkedSet) > 0 {
+			ids := make([]int, 0, len(parkedSet))
+			for id := range parkedSet {
+				ids = append(ids, id)
+			}
+			sort.Ints(ids)
+			pick := ids[ch.Intn(len(ids))]
+			logh.Int(pick)
+			tr.steps++
+			delete(parkedSet, pick)
+			running = pick
+			runningClient.Store(clients[pick])
+			rawWrite(bt.wake[pick][1], 1)
+		}
+		b, ok := rawReadTimeout(bt.toSched[0], blockMs)
+		if ok {
+			idleMs = 0
 			id := int(b & 0x7f)
-			for j, a := range alive {
-				if a == id {
-					alive = append(alive[:j], alive[j+1:]...)
-					break
+			if id == running {
+				running = -1
+			}
+			delete(blocked, id)
+			if b&0x80 == 0 {
+				parkedSet[id] = true
+			}
+			continue
+		}
+		if running >= 0 {
+			blocked[running] = true
+			running = -1
+			tr.blockedEvents++
+			continue
+		}
+		if len(parkedSet) > 0 {
+			continue
+		}
+		idleMs += blockMs
+		if idleMs >= deadMs {
+			ids := make([]int, 0, len(blocked))
+			for id := range blocked {
+				ids = append(ids, id)
+			}
+			sort.Ints(ids)
+			tr.stuck = fmt.Sprintf("clients %v neither returned from their current operation nor reached the store or cache for %d s while no other client was held back", ids, deadMs/1000)
+			for i, c := range clients {
+				if !blocked[i] {
+					tr.traces[i] = c.trace
 				}
 			}
+			return tr, nil
 		}
 	}
 	wg.Wait()
@@ -791,6 +938,16 @@ func RunThreadScenario(t *testing.T, sc *Scenario) *World {
 	if harnessOnly > 0 {
 		w.st.Probes["harness-only-race-reports"] += harnessOnly
 	}
+	if tr.blockedEvents > 0 {
+		w.st.Probes["client-waited-for-a-parked-peer"] += tr.blockedEvents
+	}
+	if sc.Extra["cancelled"] > 0 {
+		w.st.Faults["client-context-cancelled"]++
+	}
+	if tr.stuck != "" {
+		w.viol = &Violation{Prop: "C11", Sig: "C11/operation-does-not-terminate/clients-wait-for-each-other/" + sc.Cfg.Cache, Detail: tr.stuck}
+		return w
+	}
 	if sig != "" {
 		w.viol = &Violation{Prop: "C11", Sig: sig, Detail: "race detector report with mast frames while client threads operated on their own trees:\n" + detail}
 		return w
@@ -802,6 +959,11 @@ func RunThreadScenario(t *testing.T, sc *Scenario) *World {
 	// solo equivalence
 	n := sc.Extra["clients"]
 	for i := 0; i < n; i++ {
+		if sc.Extra["cancelled"] == i+1 {
+			// which of the cancelled client's own requests reach the store depends on what the
+			// others left in the cache: its trace is not expected to equal its solo trace
+			continue
+		}
 		st, err := runThreads(sc, NewChooser(1), i, newHasher())
 		if err != nil {
 			w.st.Truncated = "harness: " + err.Error()
